@@ -150,6 +150,15 @@ FAMILIES = [
     (["S", "L", "I"], ["a", '","', '";"'],
      [("S", ["L", '";"'], "normal", "N"), ("L", ["I"], "normal", "N"), ("L", ["L", '","', "I"], "normal", "N"),
       ("I", ["a"], "normal", "T"), ("I", [], "error", "N")]),
+    # 9: wide alternatives (two-digit $i / $Ti references)
+    (["S", "R"], ["a", "b", "c", "d", "e"],
+     [("S", ["R"], "normal", "N"), ("S", ["S", "R"], "normal", "N"),
+      ("R", ["a", "b", "c", "d", "e", "a", "b", "c", "d", "e", "a", "b", "c"], "normal", "T"),
+      ("R", ["b", "a", "R", "c", "d", "e", "a", "b", "c", "d", "e", "R"], "normal", "N")]),
+    # 10: the word error in the MIDDLE of a body (gocc treats it there as an ordinary terminal that recovery can shift)
+    (["S", "Ss", "St"], ["a", "let", '";"'],
+     [("S", ["Ss"], "normal", None), ("Ss", ["St"], "normal", "N"), ("Ss", ["Ss", "St"], "normal", "N"),
+      ("St", ["a", '";"'], "normal", "N"), ("St", ["let", "error", '";"'], "normal", "N"), ("St", ['";"'], "error", "N")]),
 ]
 
 
